@@ -203,7 +203,6 @@ def run(ctx):
     thorough = ctx.tier == "thorough"
     open_devs = [d for d in ALL_DEVS if d in ctx.open_devs]
     build(ctx, ["replay_stub", "record_stub"])
-    sfx = "_thorough" if thorough else ""
 
     # 1. the specification satisfies the stated properties
     seen = {}
@@ -213,11 +212,16 @@ def run(ctx):
                       ("MC_StubResolver_search_code", "search lists, as built"),
                       ("MC_StubResolver_sock", "UDP/TCP transports, ideal"),
                       ("MC_StubResolver_sock_code", "UDP/TCP transports, as built")]:
-        mc = ctx.tlc("MC_StubResolver", cfg + sfx, workers=8, label=cfg + sfx, timeout=3000)
-        ctx.require_ok(mc, cfg + sfx)
+        mc = ctx.tlc("MC_StubResolver", cfg, workers=8, label=cfg, timeout=3000)
+        ctx.require_ok(mc, cfg)
         for a, (d, g) in mc.coverage.items():
             od, og = seen.get(a, (0, 0))
             seen[a] = (od + d, og + g)
+        if thorough:
+            # larger alphabets / more configurations, without coverage statistics
+            mc = ctx.tlc("MC_StubResolver", cfg + "_thorough", workers=8, label=cfg + "_thorough",
+                         timeout=6000, coverage=False)
+            ctx.require_ok(mc, cfg + "_thorough")
     missing = [a for a in ACTIONS if seen.get(a, (0, 0))[1] == 0]
     if missing:
         raise vlib.ToolError("vacuity: actions never taken: %s" % missing)
